@@ -91,6 +91,9 @@ func checkC01(c c01Case) verdict {
 	if got != want {
 		return bad(nt, labels, "GenerateHOTP(%q, %d, digits=%d algo=%d nil=%v) = %q, RFC 4226 value is %q", secret, c.Counter, digits, algo, c.NilParam, got, want)
 	}
+	if e := retainCheck(got, "HOTP code"); e != nil {
+		return bad(true, labels, "%v", e)
+	}
 	return ok(nt, labels...)
 }
 
